@@ -314,7 +314,9 @@ class Gen:
                     name = r.choice(outer)         # shadowing
                     self.note("shadow")
             if isinstance(ty, tuple) and ty[0] == "fn":
-                # stel f = functie(...) {...}: declared before the literal, so it may call itself
+                # stel f = functie(...) {...}: the name is declared before the literal is evaluated, so a body that
+                # mentions the name would call ITSELF: always a fresh name (no redeclaration / shadowing here)
+                name = env.fresh()
                 e = self.fn_literal(ty, "")
                 env.declare(name, ty)
                 return ("let", name, e)
